@@ -117,6 +117,7 @@ theorem parseMeas_render (l : MeasLine) (q : Rat) (h : LineOk l q) :
     ∃ v, parseMeas (renderMeas l) = some { inv := l.inv, it := l.it, value := v, unit := l.unit,
                                            crit := l.crit, rid := l.rid } := by
   obtain ⟨v, hr⟩ := readFixed_fmt6 q
+  replace hr := readValue_of_readFixed hr
   refine ⟨v, ?_⟩
   unfold parseMeas renderMeas
   rw [splitSep_joinSep '\t' _ (by simp)]
@@ -133,6 +134,39 @@ theorem parseMeas_render (l : MeasLine) (q : Rat) (h : LineOk l q) :
     · exact fun hm => (plain_of_sepFree h.sep.2.1 _ hm).1 rfl
     · exact fun hm => (plain_of_sepFree (h.sep.2.2 _ hf) _ hm).1 rfl
     · exact natToDec_noTab _
+
+theorem cleanCell_sepFree (s : List Char) : sepFree (cleanCell s) = true := by
+  simp only [sepFree, cleanCell, List.all_map, List.all_eq_true]
+  intro c _
+  by_cases h : c = '\t' ∨ c = '\n' ∨ c = '\r'
+  · simp [h]
+  · simp only [Function.comp, h, if_false]
+    simpa [not_or] using h
+
+theorem cleanCell_of_sepFree (s : List Char) (h : sepFree s = true) : cleanCell s = s := by
+  simp only [sepFree, List.all_eq_true, decide_eq_true_eq] at h
+  unfold cleanCell
+  conv => rhs; rw [← List.map_id s]
+  apply List.map_congr_left
+  intro c hc
+  have := h c hc
+  simp [this.1, this.2.1, this.2.2]
+
+theorem cleaned_sepFree (l : MeasLine) : l.cleaned.SepFree := by
+  refine ⟨cleanCell_sepFree _, cleanCell_sepFree _, ?_⟩
+  intro c hc
+  simp only [MeasLine.cleaned, List.mem_map] at hc
+  obtain ⟨a, _, rfl⟩ := hc
+  exact cleanCell_sepFree a
+
+/-- texts without such characters are written as they are -/
+theorem writeMeas_sepFree (l : MeasLine) (hs : l.SepFree) : writeMeas l = renderMeas l := by
+  unfold writeMeas MeasLine.cleaned
+  rw [cleanCell_of_sepFree _ hs.1, cleanCell_of_sepFree _ hs.2.1]
+  have : l.cols.map cleanCell = l.cols := by
+    conv => rhs; rw [← List.map_id l.cols]
+    exact List.map_congr_left (fun c hc => cleanCell_of_sepFree c (hs.2.2 c hc))
+  rw [this]
 
 /-- what text-mode reading and parsing make of a well-formed line: exactly one piece, with the line's fields -/
 theorem pieces_render (l : MeasLine) (q : Rat) (h : LineOk l q) :
@@ -161,7 +195,7 @@ theorem loadT_measLine (colsOf : κ → List (List Char)) (st : TState κ β) (i
   refine ⟨v, ?_⟩
   unfold loadLineT measText
   simp only
-  rw [hv]
+  rw [writeMeas_sepFree _ hok.sep, hv]
 
 theorem loadFromT_append (colsOf : κ → List (List Char)) (rtK : κ → κ) (rtB : β → β) (st : TState κ β)
     (a b : List (Line κ β)) :
@@ -214,7 +248,7 @@ omit [DecidableEq κ] [DecidableEq β] in
 theorem flt_loads (m : Meas) (h : ∃ q, m.value = .flt q) : m.value.loads = true := by
   obtain ⟨q, hq⟩ := h
   obtain ⟨v, hv⟩ := readFixed_fmt6 q
-  simp [Value.loads, hq, Value.text, hv]
+  simp [Value.loads, hq, Value.text, readValue_of_readFixed hv]
 
 /-- the lines of one well-formed data point: the text-level loader reports what the abstract one reports -/
 theorem loadT_measLines (colsOf : κ → List (List Char)) (T : Tables κ β) (ls : List (Loaded κ))
